@@ -438,6 +438,9 @@ def minimize(
         DEFAULT_OPTIONS[Options.STORE_HISTORY],
     )
     store_history = bool(store_history)
+    for key in [Options.HISTORY_SIZE, Options.FILTER_SIZE]:
+        if key in options and not np.isfinite(options[key]):
+            raise ValueError(f"The option {key.value} must be finite.")
     if Options.HISTORY_SIZE in options and options[Options.HISTORY_SIZE] < 1:
         raise ValueError("The size of the history must be positive.")
     history_size = options.get(
@@ -979,7 +982,13 @@ def _set_default_options(options, n):
     """
     Set the default options.
     """
-    for key in [Options.RHOBEG, Options.RHOEND]:
+    for key in [
+        Options.RHOBEG,
+        Options.RHOEND,
+        Options.NPT,
+        Options.MAX_EVAL,
+        Options.MAX_ITER,
+    ]:
         if key in options and not np.isfinite(options[key]):
             raise ValueError(f"The option {key.value} must be finite.")
     if Options.RHOBEG in options and options[Options.RHOBEG] <= 0.0:
